@@ -200,7 +200,8 @@ func c17RunBatch(res *core.Result, c core.Case, p c17Case, bi int, b c17Batch, s
 					// whole file, in odd-sized pieces
 					var got []byte
 					buf := make([]byte, 1+r.Intn(9000))
-					for k := 0; k < 100000; k++ {
+					// bounded by the file's size (a one-byte buffer needs one call per byte), not by a fixed count
+					for k := 0; k < len(want)+16; k++ {
 						n, e := f.Read(buf)
 						got = append(got, buf[:n]...)
 						if e == io.EOF {
